@@ -713,7 +713,43 @@ def extract_backoff(out: Out, srcs):
         out.missing(F, "backoffMinMax", e)
 
 
-EXTRACTORS = [extract_bytes, extract_tables, extract_keepalive, extract_reader, extract_backoff]
+def extract_locks(out: Out, srcs):
+    F = "Locks"
+    import locks as L
+    try:
+        r = L.analyse(os.path.join(PKG, "client.py"))
+    except Exception as e:  # noqa: BLE001
+        for n in ("lockKinds", "cbSites", "apiAcquires"):
+            out.missing(F, n, f"{type(e).__name__}: {e}")
+        return
+    lid = {"_in_callback_mutex": "inCallback", "_callback_mutex": "callback", "_msgtime_mutex": "msgtime",
+           "_out_message_mutex": "outMessage", "_in_message_mutex": "inMessage", "_reconnect_delay_mutex": "reconnectDelay",
+           "_mid_generate_mutex": "midGenerate", "<thread-join>": "threadJoin"}
+    if set(r["kinds"]) != set(L.LOCKS):
+        out.missing(F, "lockKinds", f"locks found in __init__: {sorted(r['kinds'])}")
+    else:
+        out.add(F, "lockKinds", "List (LockId × Bool)", "[" + ", ".join(f"(.{lid[k]}, {'true' if v == 'reentrant' else 'false'})" for k, v in r["kinds"].items()) + "]",
+                "client.py Client.__init__: threading.Lock() / threading.RLock() per mutex (true = reentrant)")
+
+    def ls(xs):
+        return "[" + ", ".join("." + lid[x] for x in xs) + "]"
+    rows = []
+    for site, hs in r["sites"].items():
+        rows.append(f"({json.dumps(site)}, [" + ", ".join(ls(h) for h in hs) + "])")
+    out.add(F, "cbSites", "List (String × List (List LockId))", "[" + ",\n  ".join(rows) + "]",
+            "client.py: every user-callback call site (callback@method) with the sets of locks that may be held there "
+            "(lexical `with self._x:` nesting + propagation through the intra-class call graph from the public entry points)")
+    rows = []
+    for api, acq in r["acquires"].items():
+        items = ", ".join(f"(.{lid[a[0]]}, {ls(a[1])}, {ls(a[2])}, [{', '.join(json.dumps(g) for g in a[3])}])" for a in acq)
+        rows.append(f"({json.dumps(api)}, [{items}])")
+    out.add(F, "apiAcquires", "List (String × List (LockId × List LockId × List LockId × List String))", "[" + ",\n  ".join(rows) + "]",
+            "client.py: blocking acquisitions reachable from each public API method: (lock, locks already held by the call chain, "
+            "locks known free on this path (code under a successful try-acquire), callbacks that must be installed for the path)")
+    out.report["locks"] = {"sites": r["sites"], "kinds": r["kinds"]}
+
+
+EXTRACTORS = [extract_bytes, extract_tables, extract_keepalive, extract_reader, extract_backoff, extract_locks]
 
 
 def register(fn):
